@@ -152,12 +152,15 @@ def decl_at(file_rel, line):
             return m.group(2) or ("example@%d" % (i + 1))
     return None
 
-def audit_axioms(prop, native_ok=()):
-    """Runs Uflow/Audit/<prop>.lean and parses `#print axioms`. Returns (ok, per_theorem, problems)."""
-    with Lock("lake"):
-        rc, out, _ = run(["lake", "env", "lean", os.path.join("Uflow", "Audit", prop + ".lean")], cwd=LEAN, timeout=1800)
+def audit_axioms(prop, native_ok=(), files=None):
+    """Runs Uflow/Audit/<file>.lean for each file and parses `#print axioms`. Returns (ok, per_theorem, problems)."""
+    out = ""; rc = 0
+    for fn in (files or [prop]):
+        with Lock("lake"):
+            rc1, out1, _ = run(["lake", "env", "lean", os.path.join("Uflow", "Audit", fn + ".lean")], cwd=LEAN, timeout=1800)
+        out += out1 + "\n"; rc = rc or rc1
     per = {}; problems = []
-    text = out.replace("\n  ", " ")
+    text = out.replace("\n  ", " ").replace("\n ", " ")
     for m in re.finditer(r"'([^']+)' depends on axioms: \[([^\]]*)\]", text, flags=re.S):
         axs = [a.strip() for a in m.group(2).replace("\n", " ").split(",") if a.strip()]
         per[m.group(1)] = axs
@@ -170,19 +173,22 @@ def audit_axioms(prop, native_ok=()):
         for a in axs:
             if a in ALLOWED_AXIOMS:
                 continue
-            if a in NATIVE_AXIOMS and short in native_ok:
+            if (a in NATIVE_AXIOMS or "._native.native_decide." in a) and short in native_ok:
                 continue
             problems.append("%s depends on disallowed axiom %s" % (thm, a))
     if not per:
         problems.append("audit produced no axiom reports")
     return (not problems), per, problems
 
-def count_theorems(prop):
-    """Property theorems in Props/<prop>.lean (names) and helper lemmas they rest on (count)."""
-    src = strip_lean_comments(open(os.path.join(LEAN, "Uflow", "Props", prop + ".lean")).read())
-    thms = re.findall(r"^\s*theorem\s+([^\s:(\[{]+)", src, flags=re.M)
-    examples = len(re.findall(r"^\s*example\b", src, flags=re.M))
-    imports = re.findall(r"^import\s+(Uflow\.Lemmas\.\S+)", open(os.path.join(LEAN, "Uflow", "Props", prop + ".lean")).read(), flags=re.M)
+def count_theorems(prop, files=None):
+    """Property theorems in Props/<file>.lean (names) and helper lemmas they rest on (count)."""
+    thms = []; examples = 0; imports = []
+    for fn in (files or [prop]):
+        raw = open(os.path.join(LEAN, "Uflow", "Props", fn + ".lean")).read()
+        src = strip_lean_comments(raw)
+        thms += re.findall(r"^\s*theorem\s+([^\s:(\[{]+)", src, flags=re.M)
+        examples += len(re.findall(r"^\s*example\b", src, flags=re.M))
+        imports += re.findall(r"^import\s+(Uflow\.Lemmas\.\S+)", raw, flags=re.M)
     lemmas = 0
     seen = set()
     todo = list(imports)
